@@ -9,6 +9,7 @@
 import TealerModel.Ast
 import TealerModel.Dom
 import TealerModel.Cfg
+import TealerModel.Lemmas.Padding
 namespace Tealer.C15
 
 /-- `int c`, `pushint c` and `intc i` with an entry-block intcblock holding c at position i push the same known value -/
@@ -60,6 +61,40 @@ theorem C15_label_lookup_rename (labels : List (String × Nat)) (ρ : String →
     apply List.map_congr_left; intro x _; rfl
   rw [hmap, hrev, this]
   cases labels.reverse.find? (fun x => x.1 == l) <;> simp
+
+/-- INSERTING STACK-NEUTRAL PADDING BETWEEN STATEMENTS: for every block `pre ++ post` and the block `pre ++ [int c, pop] ++ post`, the
+    stack AST (the model `constructAst` that `C11_tie_construct_stack_ast` shows to be what the Python builds) gives every
+    instruction before the padding the same operand references, and every instruction after it the references it had, with the
+    positions at or after the insertion point moved by two.  So every comparison is attributed to the same field reads and the
+    same constants as before, whatever the block - the per-instruction premise of the metamorphic check for the padding rewrite -/
+theorem C15_padding_operands (pre post : List Ins) (c : IntVal) (l1 l2 : Nat) (t1 t2 : String) :
+    let pad : List Ins := [⟨l1, .int c, t1⟩, ⟨l2, .other "pop" 1 0, t2⟩]
+    (∀ j, j < pre.length → OperandValues.argsAt (pre ++ pad ++ post) j = OperandValues.argsAt (pre ++ post) j) ∧
+    (∀ j, j < post.length →
+      OperandValues.argsAt (pre ++ pad ++ post) (pre.length + 2 + j) =
+        (OperandValues.argsAt (pre ++ post) (pre.length + j)).map (Padding.shiftRef pre.length 2)) :=
+  Padding.padding_operands pre post c l1 l2 t1 t2
+
+/-- RESPELLING A PUSH (`int c` -> `pushint c` -> `intc i` / `intc_k`, a named constant -> its number): two blocks whose instructions
+    have pairwise the same pop and push counts - every integer push pops 0 and pushes 1 - have the same operand references at
+    every instruction; together with `C15_int_spellings` (the matchers read the same value from each spelling) every comparison is
+    read exactly as before -/
+theorem C15_respelling_operands (a b : List Ins)
+    (h : ∀ i : Nat, (a[i]!).op.pops = (b[i]!).op.pops ∧ (a[i]!).op.pushes = (b[i]!).op.pushes) (j : Nat) :
+    OperandValues.argsAt a j = OperandValues.argsAt b j :=
+  Padding.argsAt_effects a b h j
+
+example : (Op.int (.lit 5)).pops = (Op.pushint (.lit 5)).pops ∧ (Op.int (.lit 5)).pushes = (Op.intc 2).pushes ∧ (Op.pushint (.named "pay")).pops = (Op.intc 0).pops := by
+  decide
+
+/-- non-vacuity: `txn Fee; [int 7; pop;] int 1000; <=`: the comparison at position 2 reads (0, 0) and (1, 0); after the padding it
+    sits at position 4 and reads (0, 0) and (3, 0) -/
+example :
+    let pre : List Ins := [⟨1, .txn "Fee", ""⟩]
+    let post : List Ins := [⟨2, .int (.lit 1000), ""⟩, ⟨3, .cmp .le, ""⟩]
+    OperandValues.argsAt (pre ++ post) 2 = [some (0, 0), some (1, 0)] ∧
+      OperandValues.argsAt (pre ++ [⟨9, .int (.lit 7), ""⟩, ⟨9, .other "pop" 1 0, ""⟩] ++ post) 4 = [some (0, 0), some (3, 0)] := by
+  decide +kernel
 
 example : intPush (some [0, 1, 1000]) (.intc 2) = some (some (.lit 1000)) := by decide
 
